@@ -222,8 +222,8 @@ impl FloatEncoding for f32 {
             } else {
                 Inexact(f32::NEG_INFINITY, Sign::Negative)
             };
-        } else if top_bit < -125 - 23 {
-            // underflow
+        } else if top_bit < -126 - 23 {
+            // underflow (less than half of the smallest subnormal)
             return if sign == 0 {
                 Inexact(0f32, Sign::Negative)
             } else {
@@ -243,9 +243,11 @@ impl FloatEncoding for f32 {
                 round_bits = 0; // not rounding is required
                 mantissa <<= shift as u32;
             } else {
-                let shifted = mantissa << (30 + shift) as u32;
-                round_bits = (shifted >> 28 & 0b110) as u8 | ((shifted & 0xfffffff) != 0) as u8;
-                mantissa >>= (-shift) as u32;
+                // the lowest kept bit, the first discarded bit, and whether any lower bit is set
+                let s = (-shift) as u32; // 1 <= s <= 32 because top_bit >= -126 - 23
+                round_bits = ((mantissa >> (s - 1) & 0b11) << 1) as u8
+                    | ((mantissa & ((1 << (s - 1)) - 1)) != 0) as u8;
+                mantissa = mantissa >> (s - 1) >> 1;
             }
 
             // then compose the bit representation of f32
@@ -266,7 +268,7 @@ impl FloatEncoding for f32 {
             bits = (sign << 31) | (exponent << 23) | (mantissa >> 9);
 
             // get the low bit of mantissa and two extra bits, and adding round-to-even adjustment
-            round_bits = ((mantissa >> 7) & 0b110) as u8 | ((mantissa & 0x7f) != 0) as u8;
+            round_bits = ((mantissa >> 7) & 0b110) as u8 | ((mantissa & 0xff) != 0) as u8;
         };
 
         if round_bits & 0b11 == 0 {
@@ -364,10 +366,11 @@ impl FloatEncoding for f64 {
                 round_bits = 0; // not rounding is required
                 mantissa <<= shift as u32;
             } else {
-                let shifted = mantissa << (62 + shift) as u64;
-                round_bits =
-                    (shifted >> 60 & 0b110) as u8 | ((shifted & 0xfffffffffffffff) != 0) as u8;
-                mantissa >>= (-shift) as u32;
+                // the lowest kept bit, the first discarded bit, and whether any lower bit is set
+                let s = (-shift) as u32; // 1 <= s <= 64 because top_bit >= -1022 - 52
+                round_bits = ((mantissa >> (s - 1) & 0b11) << 1) as u8
+                    | ((mantissa & ((1 << (s - 1)) - 1)) != 0) as u8;
+                mantissa = mantissa >> (s - 1) >> 1;
             }
 
             // then compose the bit representation of f64
@@ -388,7 +391,7 @@ impl FloatEncoding for f64 {
             bits = (sign << 63) | (exponent << 52) | (mantissa >> 12);
 
             // get the low bit of mantissa and two extra bits, and adding round-to-even adjustment
-            round_bits = ((mantissa >> 10) & 0b110) as u8 | ((mantissa & 0x3ff) != 0) as u8;
+            round_bits = ((mantissa >> 10) & 0b110) as u8 | ((mantissa & 0x7ff) != 0) as u8;
         };
 
         if round_bits & 0b11 == 0 {
